@@ -38,6 +38,50 @@ def main(argv):
             return mon.DISABLE
         mon.register_callback(tool, mon.events.PY_START, on_start)
         mon.set_events(tool, mon.events.PY_START)
+    argseen = None
+    if os.environ.get("VF_COVER") == "2" and hasattr(sys, "monitoring"):
+        # argument-class coverage (diagnostic only; tools/option_coverage.py): for every
+        # function of the repository entered, which classes of values each parameter saw
+        argseen = {}
+        mon = sys.monitoring
+        tool = mon.COVERAGE_ID
+        mon.use_tool_id(tool, "vf-args")
+        root = os.path.join(core.REPO, "pyyeti") + os.sep
+
+        def _cls(v):
+            if v is None or isinstance(v, (bool, str)):
+                return repr(v)[:40]
+            if isinstance(v, (int, float)):
+                return repr(v) if abs(v) < 1000 and v == int(v) else type(v).__name__
+            sh_ = getattr(v, "shape", None)
+            dt = getattr(v, "dtype", None)
+            if sh_ is not None and dt is not None:
+                return "%s%dd:%s" % (type(v).__name__, len(sh_), getattr(dt, "kind", "?"))
+            if isinstance(v, (list, tuple, dict, set)):
+                return "%s[%s]" % (type(v).__name__, "0" if not len(v) else "n")
+            if callable(v):
+                return "callable"
+            return type(v).__name__
+
+        def on_start2(code, offset):
+            fn = code.co_filename
+            if not fn.startswith(root) or os.sep + "tests" + os.sep in fn:
+                return mon.DISABLE
+            fr = sys._getframe(1)
+            if fr.f_code is not code:
+                return None
+            nargs = code.co_argcount + code.co_kwonlyargcount
+            key = fn[len(root):] + "::" + code.co_qualname
+            d = argseen.setdefault(key, {})
+            loc = fr.f_locals
+            for nm in code.co_varnames[:nargs]:
+                if nm in loc:
+                    st = d.setdefault(nm, set())
+                    if len(st) < 16:
+                        st.add(_cls(loc[nm]))
+            return None
+        mon.register_callback(tool, mon.events.PY_START, on_start2)
+        mon.set_events(tool, mon.events.PY_START)
     try:
         os.chdir(tmp)
         if "_ambient" in params:
@@ -54,6 +98,8 @@ def main(argv):
         shutil.rmtree(tmp, ignore_errors=True)
     if entered is not None:
         res["entered"] = sorted(entered)
+    if argseen is not None:
+        res["argseen"] = {k: {a: sorted(v) for a, v in d.items()} for k, d in argseen.items()}
     with open(out, "w") as f:
         json.dump(res, f)
     return 0
